@@ -25,7 +25,9 @@ RULE = (
     "the same geometry for dims up to 3x2x2 (quick: a deterministic sample of the product) / 4x3x2 (thorough: full "
     "product), cell and point data, plus cross-class pairs (Uniform/Rectilinear/Esri of the same geometry) and "
     "incompatible pairs (different dims, shifted origin, other location, other crs, length-1 vs length-2 axis), "
-    "uniform grids whose single-node axes declare a different spacing (same locations); data "
+    "uniform grids whose single-node axes declare a different spacing (same locations); about a third of the grid "
+    "objects are obtained by casts / copies (to_rectilinear, to_uniform, chains, copy, deep copy) of the constructed "
+    "grid and are compared with the model of the directly built grid with the same axes and layout; data "
     "in the grid's data shape, with a leading time axis of length 1 or 2, in canonical shape or of a wrong shape, "
     "plain and masked; each pair through the grid methods, through a real Output >> Input link, and as a script on "
     "the link (static output and input read 2-4 times with and without a time; non-static link with 2-3 "
@@ -63,6 +65,28 @@ def vary_spacing(d, rng, p=0.5):
 # ---------------------------------------------------------------------------------------------
 # grid descriptions
 # ---------------------------------------------------------------------------------------------
+CASTS = ("to_rectilinear", "to_uniform")
+VIAS = {
+    "uniform": [["to_rectilinear"], ["to_rectilinear", "copy"], ["copy", "to_rectilinear"], ["copy"], ["deepcopy"],
+                ["to_rectilinear", "deepcopy"]],
+    "esri": [["to_rectilinear"], ["to_uniform"], ["to_uniform", "to_rectilinear"], ["to_rectilinear", "copy"],
+             ["to_uniform", "copy"], ["copy"]],
+    "rect": [["copy"], ["deepcopy"]],
+}
+
+
+def vary_via(d, rng, p=0.35):
+    """the grid object is obtained by casts / copies of the constructed grid: same locations, same layout"""
+    if rng.random() < p:
+        d["via"] = list(rng.choice(VIAS[d["cls"]]))
+    return d
+
+
+def is_esri(d):
+    """still an EsriGrid object (valid_locations = CELLS only)?"""
+    return d["cls"] == "esri" and not any(v in CASTS for v in d.get("via", []))
+
+
 def geom_axes(geom, dims):
     """increasing axes of geometry number `geom`"""
     axes = []
@@ -222,7 +246,7 @@ def make_gridseq(rng):
         return gdesc(cls, 0, dd, rng.choice("CF"), rng.random() < 0.5, [rng.random() < 0.5 for _ in range(d)],
                      rng.choice(["CELLS", "POINTS"]))
 
-    grids = [vary_spacing(one(k), rng, 0.4) for k in range(rng.choice([2, 2, 3]))]
+    grids = [vary_via(vary_spacing(one(k), rng, 0.4), rng, 0.4) for k in range(rng.choice([2, 2, 3]))]
     nobj = len(grids)
     ops = []
     pair = (0, 1)
@@ -308,7 +332,14 @@ def _cross(rng, kind):
         ih = ih + [True]
     h = gdesc(cls_h, hgeom, hdims, oh, rh, ih, hloc, hcrs)
     g, h = vary_spacing(g, rng, 0.3), vary_spacing(h, rng, 0.3)
+    g, h = vary_via(g, rng, 0.5), vary_via(h, rng, 0.5)
     return make_case(kind, g, h, _mode(rng, kind), rng)
+
+
+def _via(d, *via):
+    d = dict(d)
+    d["via"] = list(via)
+    return d
 
 
 _U = lambda rev, inc, loc="CELLS", dims=(4, 3): gdesc("uniform", 0, dims, "F", rev, inc, loc)  # noqa: E731
@@ -351,6 +382,17 @@ CORPUS_SPEC = [
     ("methods", gdesc("uniform", 3, (1, 3, 2), "F", False, [True, True, False], "POINTS"),
      gdesc("uniform", 0, (1, 3, 2), "F", False, [True, True, False], "POINTS"), "time1"),
     ("link", gdesc("uniform", 3, (1,), "F", False, [True], "CELLS"), gdesc("uniform", 0, (1,), "F", False, [True], "CELLS"), "data"),
+    # seeded defect C15_k: grids obtained by casts (to_rectilinear / to_uniform / copies of them) from grids with a
+    # bottom-up axis behave like the directly built grid with the same axes and layout
+    ("methods", _via(gdesc("esri", 0, (4, 3), "C", True, [True, False], "CELLS"), "to_rectilinear"), _U(False, [True, True]), "data"),
+    ("link", _via(gdesc("esri", 0, (4, 3), "C", True, [True, False], "CELLS"), "to_rectilinear"), _U(False, [True, True]), "data"),
+    ("link", _U(False, [True, True]), _via(gdesc("esri", 0, (4, 3), "C", True, [True, False], "CELLS"), "to_uniform", "to_rectilinear"), "time1"),
+    ("methods", _via(_U(False, [True, False]), "to_rectilinear"), _U(False, [True, True]), "time1"),
+    ("link", _via(_U(False, [False, True], "POINTS"), "to_rectilinear", "copy"), _U(True, [True, True], "POINTS"), "data"),
+    ("link", _via(gdesc("uniform", 0, (3, 2, 3), "F", True, [True, False, False], "POINTS"), "copy", "to_rectilinear"),
+     gdesc("uniform", 0, (3, 2, 3), "F", True, [True, True, True], "POINTS"), "data"),
+    ("methods", _via(gdesc("esri", 0, (4, 3), "C", True, [True, False], "CELLS"), "to_uniform"),
+     _via(gdesc("esri", 0, (4, 3), "C", True, [True, False], "CELLS"), "to_rectilinear"), "canon"),
     # other crs, otherwise identical
     ("methods", _U(False, [True, True]), gdesc("uniform", 0, (4, 3), "F", True, [True, False], "CELLS", 1), "data"),
     ("link", _U(False, [True, True]), gdesc("uniform", 0, (4, 3), "F", True, [True, False], "CELLS", 1), "data"),
@@ -393,6 +435,10 @@ CORPUS_GRIDSEQ = [
       gdesc("rect", 0, (4, 3, 1), "F", False, [True, True, True], "CELLS")],
      [["compat", 0, 1], ["compat", 1, 0], ["eq", 0, 1], ["trans", 0, 1], ["compat", 1, 2], ["set", 0, "POINTS"],
       ["set", 1, "POINTS"], ["compat", 0, 1], ["trans", 1, 0]]),
+    ([_via(gdesc("esri", 0, (4, 3), "C", True, [True, False], "CELLS"), "to_rectilinear"), _GC,
+      _via(_U(True, [True, False]), "to_rectilinear", "copy")],
+     [["compat", 0, 1], ["eq", 0, 2], ["trans", 0, 1], ["set", 0, "POINTS"], ["compat", 0, 1], ["set", 1, "POINTS"],
+      ["trans", 0, 1], ["eq", 2, 0]]),
     ([gdesc("esri", 0, (4, 3), "C", True, [True, False], "CELLS"), _GC],
      [["compat", 0, 1], ["set", 0, "POINTS"], ["compat", 0, 1], ["set", 1, "POINTS"], ["compat", 0, 1], ["compat", 1, 0],
       ["trans", 1, 0], ["compat", 0, 5]]),
@@ -417,6 +463,10 @@ CORPUS_SEQ_X = [
     (gdesc("uniform", 0, (4, 3, 2), "F", False, [True, False, True], "POINTS"),
      gdesc("rect", 0, (4, 3, 2), "C", True, [True, True, True], "POINTS"), False, "time1", [2], dict(declare="both", push_masked=False)),
     (_U(False, [True, False]), _ES, False, "data", [1], dict(declare="both", flat=True, push_masked=False)),
+    # cast grids on a static link / flat pushes
+    (_via(_ES, "to_rectilinear"), _U(False, [True, True]), True, "data", [3], dict(masked=True)),
+    (_via(_ES, "to_uniform", "to_rectilinear"), _via(_U(False, [False, False]), "to_rectilinear", "copy"), False, "data", [1, 2],
+     dict(flat=True, declare="both", push_masked=False)),
 ]
 
 
@@ -440,6 +490,7 @@ def generate(rng, tier):
             g = gdesc(cls, geom, dims, rng.choice("CF"), rg, ig, loc)
             h = gdesc(rng.choice(["uniform", "rect"]) if geom == 0 else "rect", geom, dims, rng.choice("CF"), rh, ih, loc)
             g, h = vary_spacing(g, rng, 0.4), vary_spacing(h, rng, 0.4)
+            g, h = vary_via(g, rng, 0.3), vary_via(h, rng, 0.3)
             cases.append(make_case(kind, g, h, _mode(rng, kind), rng))
             if kind == "link":
                 # the same pair again as a script: static link read 2-4 times / several publications read repeatedly
@@ -459,6 +510,14 @@ def generate(rng, tier):
 # implementation driver
 # ---------------------------------------------------------------------------------------------
 def build(d):
+    g = build0(d)
+    for v in d.get("via", []):
+        g = {"to_rectilinear": lambda: g.to_rectilinear(), "to_uniform": lambda: g.to_uniform(),
+             "copy": lambda: g.copy(), "deepcopy": lambda: g.copy(deep=True)}[v]()
+    return g
+
+
+def build0(d):
     c = spec_case(d)
     crs = None if d["crs"] == 0 else "CRS-%d" % d["crs"]
     loc = G._loc(c["loc"])
@@ -612,8 +671,18 @@ def VAL(v):
     return NONE if v is None else Some(Z(v))
 
 
-def coq_grid(d):
+def model_spec(d):
+    """constructor arguments of the directly built grid the object must behave like: a cast / copied grid is the
+    grid with the same axes and layout; an EsriGrid that went through a cast is a plain uniform grid"""
     c = spec_case(d)
+    if d["cls"] == "esri" and not is_esri(d):
+        c = {"cls": "uniform", "dims": d["dims"], "spacing": [c["cs"], c["cs"]], "origin": [c["xll"], c["yll"]],
+             "inc": [True, False], "order": c["order"], "rev": True, "loc": c["loc"]}
+    return c
+
+
+def coq_grid(d):
+    c = model_spec(d)
     return G.coq_spec(c) + " " + P(B(c["order"] == "C"), B(c["rev"]), B(c["loc"] == "POINTS"), N(d["crs"]))
 
 
@@ -629,7 +698,7 @@ def coq_case(case, obs):
     if case["kind"] == "gridseq":
         grids = []
         for d in case["grids"]:
-            c = spec_case(d)
+            c = model_spec(d)
             grids.append(P(G.coq_spec(c), P(B(c["order"] == "C"), B(c["rev"]), B(c["loc"] == "POINTS"), N(d["crs"]))))
         return C("CGridSeq", L(grids), L(_gop(o) for o in case["ops"]))
     if case["kind"] == "linkseq":
@@ -731,7 +800,7 @@ def _monitor_gridseq(case, obs):
                 return (f"op {n} {op}: answered {r[1]} but the objects currently hold {a['loc']} data on dims {a['dims']} "
                         f"and {b['loc']} data on dims {b['dims']} (same locations: {compat}, same layout: {eq})")
         elif op[0] == "set":
-            ok = not (cur[op[1]]["cls"] == "esri" and op[2] == "POINTS")
+            ok = not (is_esri(cur[op[1]]) and op[2] == "POINTS")
             if r != ["set", ok]:
                 return f"op {n} {op}: setter {'accepted' if r[1] else 'rejected'} the location"
             if ok:
@@ -838,6 +907,8 @@ def distribution(cases, obss):
         "seq_reads": dict(Counter(sum(1 for op in c["ops"] if op[0] == "pull") for c in cases if c["kind"] == "linkseq")),
         "dim": dict(Counter(len(c["g"]["dims"]) for c in cases if "g" in c)),
         "classes": dict(Counter(c["g"]["cls"] + ">" + c["h"]["cls"] for c in cases if "g" in c)),
+        "obtained_via": dict(Counter("+".join(d.get("via", [])) or "constructor" for c in cases
+                                     for d in ([c["g"], c["h"]] if "g" in c else c["grids"]))),
         "compatible": dict(Counter(str(same_located_axes(c["g"], c["h"])) for c in cases if "g" in c)),
         "gridseq_ops": dict(Counter(op[0] for c in cases if c["kind"] == "gridseq" for op in c["ops"])),
         "result": dict(Counter(o["res"][-1][0] + (str(o["res"][-1][1]) if o["res"][-1][0] == "err" else "")
